@@ -5,7 +5,7 @@ Every label, invariant, initialiser and argument carries a site-unique
 constant so that any mis-attachment shows in the comparison."""
 import xmlgen as X
 
-GDECL = "const int GLO = 1; const int GHI = 3; typedef int[-2, GHI] gsel_t; int g1 = 901; int g2; int ga; int gb; int gc; clock gx; chan c; broadcast chan bc; clock gxs[2]; clock gys[2]; urgent chan uc; urgent broadcast chan ubc; urgent broadcast chan ubcs[2]; meta int gm; const bool gk = true; double gd;"
+GDECL = "const int GLO = 1; const int GHI = 3; typedef int[-2, GHI] gsel_t; int g1 = 901; int g2; int ga; int gb; int gc; clock gx; chan c; broadcast chan bc; clock gxs[2]; clock gys[2]; urgent chan uc; urgent broadcast chan ubc; urgent broadcast chan ubcs[2]; meta int gm; const bool gk = true; double gd; int gmat[2][3]; chan gcm[2][4]; typedef int[0,2] gi3_t; bool gsn[gi3_t][2];"
 
 
 class Loc:
@@ -337,6 +337,10 @@ def expected(m, xml=True):
                          ["c", "()", "(CHANNEL)"], ["bc", "()", "(BROADCAST (CHANNEL))"], ["gxs", "()", arr2 % "(CLOCK)"], ["gys", "()", arr2 % "(CLOCK)"],
                          ["uc", "()", "(URGENT (CHANNEL))"], ["ubc", "()", "(BROADCAST (URGENT (CHANNEL)))"], ["ubcs", "()", arr2 % "(BROADCAST (URGENT (CHANNEL)))"],
                          ["gm", "()", "(SYSTEM_META %s)" % rng], ["gk", "(CONSTANT:BOOL 1)", "(CONSTANT (BOOL))"], ["gd", "()", "(DOUBLE)"]]
+    # arrays of two different dimensions: `t a[2][3]` is an array of 2 arrays of 3
+    dim = lambda n: "(RANGE (INT) <(CONSTANT:INT 0)> <(MINUS (CONSTANT:INT %d) (CONSTANT:INT 1))>)" % n      # noqa: E731
+    d["globals_tail"] += [["gmat", "()", "(ARRAY (ARRAY %s %s) %s)" % (rng, dim(3), dim(2))], ["gcm", "()", "(ARRAY (ARRAY (CHANNEL) %s) %s)" % (dim(4), dim(2))],
+                          ["gsn", "()", "(ARRAY (ARRAY (BOOL) %s) (LABEL gi3_t:(RANGE (INT) <(CONSTANT:INT 0)> <(CONSTANT:INT 2)>)))" % dim(2)]]
     if m.gextra is not None:
         d["globals_tail"].append(["gextra", "(CONSTANT:INT %d)" % m.gextra, rng])
     tp = {}
